@@ -19,7 +19,10 @@ import (
 var c08Alpha3 = []string{"a", "$", "1", ".", "[", "]", "(", ")", "{", "}", "\"", "'", "`", "/", "\\", "!", "~", ":", "<", "?", "*", "-", " ", "é"}
 var c08SigAlpha = []string{"n", "s", "a", "f", "(", ")", "<", ">", "?", "+", "-", ":", "!", "x", "é", " ", "\f", "\u00a0"}
 
-var c08Soup = []string{"a", "b", "$", "$x", "$$", "1", "0", "1.5", "1e5", "1e", "\"s\"", "'t'", "`n`", ".", "..", "[", "]", "(", ")", "{", "}", ",", ";", ":", ":=", "?", "+", "-", "*", "**", "/", "%", "|", "=", "!=", "<", "<=", ">", ">=", "~>", "^", "&", "!", "~", "and", "or", "in", "true", "false", "null", "function", "λ", "\\", "\"", "'", "`", " ", "\n", "é", "😀", "\\u", "\\u00", "\\ud83d", "/a/", "/a/i", "/", "[]", "()", "{}", "<n>", "<s-:s>", "<a<n>>", "\x00", "\xff", "\xc3", "\f", "\v", "\u00a0", "\u0085", "\u2028", "\u3000"}
+var c08Soup = []string{"a", "b", "$", "$x", "$$", "1", "0", "1.5", "1e5", "1e", "\"s\"", "'t'", "`n`", ".", "..", "[", "]", "(", ")", "{", "}", ",", ";", ":", ":=", "?", "+", "-", "*", "**", "/", "%", "|", "=", "!=", "<", "<=", ">", ">=", "~>", "^", "&", "!", "~", "and", "or", "in", "true", "false", "null", "function", "λ", "\\", "\"", "'", "`", " ", "\n", "é", "😀", "\\u", "\\u00", "\\ud83d", "/a/", "/a/i", "/", "[]", "()", "{}", "<n>", "<s-:s>", "<a<n>>", "\x00", "\xff", "\xc3", "\f", "\v", "\u00a0", "\u0085", "\u2028", "\u3000",
+	// tokens that spell what an error message is assembled from (placeholders of the
+	// message templates, formatting verbs): rendering the error must still end
+	"\"{{token}}\"", "`{{hint}}`", "'{{token}}{{hint}}'", "{{token}}", "\"%s%d%!v\""}
 
 func enumStrings(alpha []string, maxLen int) int64 {
 	var n, p int64 = 0, 1
@@ -60,9 +63,10 @@ func c08Seeds(seed uint64, n int) []string {
 		// optimiser rewrites), invoked so that the arguments are evaluated
 		`$substringBefore(?, a.sep)("foo-bar")`, `$append(?, a[0])(1)`, `$append(?, a[])(1)`, `"x" ~> $substringAfter(?, seps[0])`, `$append(a.b[c=1], ?)(2)`, `$zip(?, a.b, c[])([1])`,
 		`$map([1], $append(?, a.b))`, `$sum(?)(a.b)`, `function($x){$x}(?)(a.b[0])`,
+		`1 "{{token}}"`, "1 `{{token}}`", `"{{hint}}" := 1`, "a.`{{hint}}` `{{token}}`", `$f("{{token}}" "{{hint}}")`, `1 "%s"`,
 		`a.b.(c+1)`, `$f(?, 1)(2)`, `"a" & 1 & true`, `a != b`, `a <= b and c >= d`, `%`, `a % 2`,
 	)
-	for i := 0; len(out) < n+46; i++ {
+	for i := 0; len(out) < n+52; i++ {
 		r := prng.New(seed, 0xC08, uint64(i))
 		g := gen.NewChaos(r, 3, false)
 		_, s := g.Program(jast.Style{Space: r.Intn(2)})
